@@ -128,6 +128,7 @@ class CFront:
             fl += ["-include", "pmmintrin.h"]
         for i in incs:
             fl += ["-I", os.path.join(self.repo, i)]
+        fl += ["-idirafter", os.path.join(os.path.dirname(os.path.abspath(__file__)), "stubs")]   # omp.h declarations (gcc's header is not on clang's path)
         if ent:
             for dd in ent["defines"]:
                 if "__NO_INTRINSICS" in dd:
